@@ -20,6 +20,12 @@ claim('C01', 'icontract post-condition on read_stack judged by an independent la
       'Exploration: holds on what was generated, nothing more.',
       'numpy matrix products and float64 arithmetic of the oracle; generators cover 1..24 plies, 3/6/9-entry materials', '4/C01')
 
+claim('C05', 'recording post-condition on analysis.lb / observation of Panel.lb outputs, judged by a dense LAPACK reference and pencil backward-error residuals',
+      'Every returned (multiplier, mode) pair is judged by its normalised backward error on the pencil (K, KG), by zeros on null amplitudes, and - for '
+      'sub-critical destabilising loads - against the sorted positive reference multipliers; sparse-vs-dense agreement and the 1/s scaling law are '
+      'checked by further real executions. Random symmetric pairs with null rows/cols, all KG sign structures, both solver switches, plus package matrices.',
+      'scipy.linalg.eigh on the active sub-matrices as reference; tolerances scale with eps*||K||/||KG|| and eps*cond(K) (stated in the check)', '4/C05')
+
 ALL = ['C%02d' % i for i in range(1, 21)]
 PENDING_REASON = 'check not built yet in this round (runtime-monitoring plan in DESIGN.md section 4); will be claimed once its monitor runs silent on the unchanged tree'
 
